@@ -1491,3 +1491,117 @@ def err_edge_defs_of_return(fn, b, err_blocks, og=None):
                 cur |= outs
                 work.append(s)
     return out, loops_back
+
+
+def consts_at_return(fn, starts, local=0, avoid=()):
+    """Tiny path-sensitive constant propagation: starting at blocks `starts` with nothing known, follow every CFG path
+    (not through `avoid`) to the returns and report the set of values `local` can hold there: each is a const tuple as
+    produced by const_value(), or None for 'not a known constant'. Copies between plain locals are followed, a branch
+    on a local with a known value takes only the matching edge, and taking an edge of a switch on a plain local teaches
+    that local's (and its copy source's) value on that edge."""
+    TOP = "<unknown>"
+    state = {}
+    work = []
+    for s in starts:
+        state[s] = {}
+        work.append(s)
+    results = set()
+    avoid = set(avoid)
+
+    def val(env, l):
+        v = env.get(l, TOP)
+        seen = 0
+        while isinstance(v, tuple) and v and v[0] == "alias" and seen < 8:
+            v = env.get(v[1], TOP)
+            seen += 1
+        return TOP if (isinstance(v, tuple) and v and v[0] == "alias") else v
+
+    def kill_aliases(env, l):
+        for k in [k for k, v in env.items() if isinstance(v, tuple) and v and v[0] == "alias" and v[1] == l]:
+            env[k] = TOP
+
+    def step(env, blk):
+        env = dict(env)
+        for st in blk["s"]:
+            p = st["p"]
+            if p["p"]:
+                continue
+            rv = st["rv"]
+            v = TOP
+            if rv["k"] == "use":
+                a = rv["a"]
+                if "const" in a:
+                    v = const_value(a["const"])
+                else:
+                    pl = op_place(a)
+                    if pl is not None and not pl["p"]:
+                        v = val(env, pl["l"])
+                        if v == TOP and pl["l"] != p["l"]:
+                            v = ("alias", pl["l"])
+            kill_aliases(env, p["l"])
+            env[p["l"]] = v
+        t = blk["t"]
+        if t["k"] == "call" and not t["dest"]["p"]:
+            kill_aliases(env, t["dest"]["l"])
+            env[t["dest"]["l"]] = TOP
+        return env
+
+    def meet(a, b):
+        return {k: v for k, v in a.items() if b.get(k, TOP) == v}
+
+    def learn(env, l, iv, ty):
+        env = dict(env)
+        c = ("bool", bool(iv)) if ty == "bool" else ("int", iv)
+        cur = env.get(l, TOP)
+        seen = 0
+        while True:
+            nxt = cur[1] if (isinstance(cur, tuple) and cur and cur[0] == "alias") else None
+            env[l] = c
+            if nxt is None or seen > 8:
+                break
+            l, cur = nxt, env.get(nxt, TOP)
+            seen += 1
+        return env
+
+    iters = 0
+    while work and iters < 20000:
+        iters += 1
+        x = work.pop()
+        if x in avoid:
+            continue
+        blk = fn.blocks[x]
+        out = step(state[x], blk)
+        if blk["t"]["k"] == "return":
+            v = val(out, local)
+            results.add(None if v == TOP else v)
+        t = blk["t"]
+        edges = [(s, out) for s in fn.succs(x)]
+        if t["k"] == "switch":
+            pl = op_place(t["d"])
+            if pl is not None and not pl["p"]:
+                v = val(out, pl["l"])
+                ty = fn.local_ty(pl["l"])
+                if v != TOP and isinstance(v, tuple) and v[0] in ("bool", "int"):
+                    iv = int(v[1])
+                    hit = [tg for vv, tg in t["vs"] if vv == iv]
+                    edges = [(tg, out) for tg in (hit if hit else [t["else"]])]
+                else:
+                    edges = []
+                    for vv, tg in t["vs"]:
+                        edges.append((tg, learn(out, pl["l"], vv, ty)))
+                    if ty == "bool" and len(t["vs"]) == 1:
+                        edges.append((t["else"], learn(out, pl["l"], 1 - t["vs"][0][0], ty)))
+                    else:
+                        edges.append((t["else"], out))
+        for s, env in edges:
+            if fn.blocks[s]["cleanup"]:
+                continue
+            if s not in state:
+                state[s] = dict(env)
+                work.append(s)
+            else:
+                m = meet(state[s], env)
+                if m != state[s]:
+                    state[s] = m
+                    work.append(s)
+    return results
